@@ -234,12 +234,19 @@ def parseTrack3 (raw : Bytes) : Option T3 :=
 
 def formatTrack3 (t : T3) : Bytes := t.fc ++ t.pan ++ [eqSign] ++ t.dd
 
+def emptyT3 : T3 := { fc := [], pan := [], dd := [] }
+
+/-- `Track3Filter`. `Track3.SetBytes` (unlike `Track1`/`Track2.SetBytes`) swallows the error of
+`unpack` (`field/track3.go`: `if err := f.unpack(b); err != nil { return nil }`), so
+`newTrackData` never fails for track 3: a text the grammar rejects leaves the track empty and
+is printed as the empty track, `"="` — nothing of the text is shown. -/
 def track3Filter (pan : Bytes → Res Bytes) (inp : Bytes) : Res Bytes :=
-  match parseTrack3 inp with
-  | none => .ok inp            -- `ErrCreatingNewTrackData`: the filter returns its input
-  | some t => do
+  let go (t : T3) : Res Bytes := do
     let p ← pan t.pan
     pure (formatTrack3 { t with pan := p })
+  match parseTrack3 inp with
+  | none => go emptyT3
+  | some t => go t
 
 /-! ## the filters with the constants of the source -/
 
